@@ -7,7 +7,14 @@ import (
 )
 
 func init() {
-	properties["C08"] = &Property{Gen: genC08, Run: runSysProp(oracleC08)}
+	c08sys, c08life := runSysProp(oracleC08), lifeRunner(oracleC08life)
+	properties["C08"] = &Property{Gen: genC08, Run: func(toks []string) Result {
+		if toks[0] == "life" {
+			// the password gate across Start/Restart on real sockets (plain and TLS): password rotation
+			return c08life(toks)
+		}
+		return c08sys(toks)
+	}}
 	properties["C13"] = &Property{Gen: genC13, Run: runSysProp(oracleC13)}
 }
 
@@ -133,8 +140,46 @@ func swapCase(s string) string {
 	return string(b)
 }
 
+// oracleC08life: whatever the history of configured passwords, a client is served iff it presents the currently
+// configured one.
+func oracleC08life(cfg []string, results []string) string {
+	for i, r := range results {
+		kv := strings.SplitN(r, "=", 2)
+		switch {
+		case strings.HasPrefix(kv[0], "pingold:") && kv[1] != "auth-E" && kv[1] != "refused":
+			return fmt.Sprintf("fail:a client presenting the previous password was not refused (%s at step %d)", r, i)
+		case strings.HasPrefix(kv[0], "ping:") && kv[1] != "ok" && kv[1] != "refused":
+			return fmt.Sprintf("fail:a client presenting the configured password was not served (%s at step %d)", r, i)
+		}
+	}
+	return "ok"
+}
+
 func genC08(tier string, seed uint64, emit0 func(string)) {
 	r := NewRng(seed)
+	// password rotation: the application changes requirepass and restarts; from then on exactly the new password opens
+	// the gate, on both ports, also after several rotations and back to an earlier password
+	for _, cfg := range []string{"plain pw=old", "plain tls pw=old"} {
+		ks := []string{"p"}
+		if strings.Contains(cfg, "tls") {
+			ks = []string{"p", "t"}
+		}
+		var acts []string
+		acts = append(acts, "start")
+		for _, k := range ks {
+			acts = append(acts, "ping:"+k)
+		}
+		for _, np := range []string{"new", "newer", "old", "x y"} {
+			acts = append(acts, "setpw:"+strings.ReplaceAll(np, " ", "_"), "restart")
+			for _, k := range ks {
+				acts = append(acts, "ping:"+k, "pingold:"+k)
+			}
+		}
+		acts = append(acts, "stop")
+		emit0(lifeLine(cfg, acts))
+	}
+	// with a certificate rule next to the password: a verified client with the right name still needs the password
+	emit0(lifeLine("tls cn=client pw=old", []string{"start", "pingold:t", "ping:t", "pingold:t", "setpw:new", "restart", "pingold:t", "ping:t", "stop"}))
 	// every third case is also run on connections served as TLS connections are (tlsState present): the password gate
 	// is the same on both ports
 	nth := 0
